@@ -468,7 +468,7 @@ def run_main(
     # cache mode as the run experienced it: a stored table was read / the lookup missed / caching is off
     if load == "none":
         cache = "off"
-    elif TR.cache_load:
+    elif TR.cache_load and not any(ev["e"] == "ParsePy" for ev in events):
         cache = "hit"
     elif TR.cache_dump or (bool(getattr(params, "cache_model", False)) and load != "accepted"):
         cache = "miss"
